@@ -16,7 +16,7 @@ RULE = (
     "conflict and an accepted re-use of a UID after its holder was deleted or changed UID; distinct by program hash."
 )
 
-UIDS = ["u1", "u2", "Abc", "abc", "id with  spaces", "esc\\,a\;b", "ünï-日"]
+UIDS = ["u1", "u2", "Abc", "abc", "id with  spaces", "esc\\,a\;b", "ünï-日", " u1", "u1 ", "abc "]
 
 
 @st.composite
@@ -63,6 +63,8 @@ def uid_release_program(draw):
     names = list(dict.fromkeys(names + ["a1.ics", "b2.ics", "c3.ics", "d4.ics", "e5.ics"]))[:5]
     a, b, c, d, e = names
     X, Y, Z = "u1", "u2", "u3"
+    if draw(st.integers(0, 3)) == 0:
+        Y = draw(st.sampled_from([" u1", "u1 "]))  # differs from X only by white space at the edge: another UID
     body = lambda u: enc_body(draw(gen.calendar_object(uid=u))["raw"])  # noqa: E731
     steps = [{"op": "MKCOL", "fe": draw(gen_prog.FE), "coll": "c1", "kind": "mkcalendar"}]
 
